@@ -193,6 +193,13 @@ def _gen_case(rp, rf, rk, tier, flavour):
         # character): "db1.corp-test" next to the system's "web1.corp.test".  The recogniser treats it as a host of the
         # domain, so it is an original like any other.
         hosts.append(name(rp) + "." + dom.replace(".", rp.choice(["-", "_", "x"]), 1))
+    if has_dom and hosts and rk.random() < 0.2:
+        # the same host under another capitalisation of its label (another program's log may spell it differently);
+        # the recogniser is case-sensitive on the label, so this is an original of its own
+        lab, rest = hosts[0].split(".", 1)
+        var = lab.capitalize() if lab.capitalize() != lab else lab.upper()
+        if var != lab:
+            hosts.append(var + "." + rest)
     ips = [ipv4(rp) for _ in range(rp.randint(0, 4))]
     if rp.random() < 0.06:
         ips += rp.sample(NEAR_LOOPBACK, rp.randint(1, 2))
